@@ -320,9 +320,7 @@ def div_rem_shape(crate):
             if not okr:
                 ok = False
                 msgs.append("remainder is initialised from %s, not a copy of self" % (mir.show(ri) if ri else "?"))
-            if (q[1], r[1]) != ("quotient", "rem"):
-                ok = False
-                msgs.append("returns (%s, %s), expected (quotient, rem)" % (q[1], r[1]))
+
         out.append((b, "%s|result shape" % b.key, "pass" if ok else "violation",
                     "returns (quotient = zeros(len(self)) updated by set(i, One), rem = copy of self)" if ok else "; ".join(dict.fromkeys(msgs))))
     return out
@@ -806,7 +804,7 @@ def check_c13(ctx, rep, tier):
     n = run_generic(ctx, rep, "WRITE", write_is_to_vec)
     rep.floor("write implementations", n, 2)
     n = run_generic(ctx, rep, "ENDIAN", f2.to_vec_arms)
-    rep.floor("to_vec endianness arms", n, 2)
+    rep.floor("to_vec implementations (endianness arms)", n, 2)
     run_generic(ctx, rep, "DISPATCH", lambda c: [(b, b.key, "violation" if v == "violation" else "pass", m) for b, v, m in dispatch.analyse(c)],
                 select=lambda b, k: b.name in SER_FNS, memo_key="dispatch")
     run_generic(ctx, rep, "GUARD-BVP", bv_to_bvp_guards, select=lambda b, k: b.name in SER_FNS)
